@@ -205,7 +205,39 @@ def k_maxret(ctx, seqs, k, mode, m, n_cpu=1, dist=None, maxcd=None):
         ctx.count("max_returns_truncating")
 
 
-KINDS = {"config": k_config, "maxret": k_maxret}
+def k_bigconfig(ctx, n_per_class, lengths, k, mode, n_cpu, compression, np_seed):
+    """Thousands of sequences (several length classes of n_per_class each): the parallel / compressed configuration must give the
+    triplets of the single-process default configuration of the same call (no oracle at this size: configuration independence only)."""
+    import pyrepseq.nn as nn
+    rng = random.Random(np_seed)
+    seqs = []
+    for L in lengths:
+        roots = ["".join(rng.choice(G.AA) for _ in range(L)) for _ in range(max(1, n_per_class // 4))]
+        for _ in range(n_per_class):
+            r = list(rng.choice(roots))
+            if rng.random() < 0.5:
+                r[rng.randrange(L)] = rng.choice(G.AA)
+            seqs.append("".join(r))
+    rng.shuffle(seqs)
+    ctx.count("big_config_cases")
+    if len(seqs) > 65536:
+        ctx.count("big_config_over_65536")
+    ctx.nontriv(["bigconfig", n_per_class, lengths, k, mode, n_cpu, compression, np_seed])
+    ctx.sample("bigconfig", {"n": len(seqs), "lengths": lengths, "mode": mode, "n_cpu": n_cpu, "compression": compression})
+    base = ctx.call(nn.kdtree, list(seqs), n_cpu=1, compression=1, **_kwargs(k, mode, None, None))
+    out = ctx.call(nn.kdtree, list(seqs), n_cpu=n_cpu, compression=compression, **_kwargs(k, mode, None, None))
+    if not base.ok or not out.ok:
+        ctx.violation(f"kdtree:bigconfig-{mode}:raised", "kdtree raised on a large input", (base if not base.ok else out).describe(), None)
+        return
+    a, b = O.canon_triplets(base.value), O.canon_triplets(out.value)
+    ctx.count("triplets_compared", sum(a.values()))
+    if a != b:
+        d = O.diff_triplets(b, a)
+        ctx.violation(f"kdtree:bigconfig-{mode}:differs", f"n_cpu={n_cpu}, compression={compression} on {len(seqs)} sequences differs from the single-process result: {str(d)[:300]}",
+                      sum(b.values()), sum(a.values()))
+
+
+KINDS = {"config": k_config, "maxret": k_maxret, "bigconfig": k_bigconfig}
 COMPRESSIONS = [1, 2, 3, 5, 7, 20, 21, 25]
 MODES = ["default", "hamming", "custom"]
 
@@ -226,6 +258,15 @@ def generate(tier, seed):
     yield "config", {"seqs": ["CAAA", "CADA", "CAAK"], "k": 1, "mode": "default", "n_cpu": 8, "compression": 1}, True
     yield "config", {"seqs": ["CAAA"], "k": 1, "mode": "default", "n_cpu": 2, "compression": 1}, True
     yield "config", {"seqs": ["CAAA", "CADA", "CAAKK", "CAAAK"], "k": 1, "mode": "hamming", "n_cpu": 3, "compression": 2}, True
+    # composition counts around 2^8 under every compression (indel pair whose lengths straddle 255 | 256)
+    for comp in (1, 8, 20, 25):
+        yield "config", {"seqs": ["A" * 255, "A" * 256, "A" * 254 + "C", "C" + "A" * 255], "k": 1, "mode": "default", "n_cpu": 1 + comp % 2, "compression": comp}, True
+    # several length classes of a few thousand sequences each, in parallel (Hamming mode works per length class)
+    yield "bigconfig", {"n_per_class": 2100, "lengths": [9, 11], "k": 1, "mode": "hamming", "n_cpu": 2, "compression": 1, "np_seed": 11500 + seed}, True
+    if thorough:
+        yield "bigconfig", {"n_per_class": 4200, "lengths": [8, 10, 12], "k": 1, "mode": "hamming", "n_cpu": 3, "compression": 1, "np_seed": 11600 + seed}, True
+        yield "bigconfig", {"n_per_class": 33500, "lengths": [10, 12], "k": 1, "mode": "default", "n_cpu": 2, "compression": 1, "np_seed": 11700 + seed}, True
+        yield "bigconfig", {"n_per_class": 9000, "lengths": [11], "k": 1, "mode": "default", "n_cpu": 3, "compression": 4, "np_seed": 11800 + seed}, True
     if thorough:
         idx = 0
         for n in range(1, 25):
